@@ -296,6 +296,36 @@ var _ = kessoku.Inject[*App]("InitApp",
 	kessoku.Provide(NewÄÖÜ), kessoku.Provide(NewApp))
 ''')
     out.append(("type-names-starting-with-non-ascii-capitals", ["./un/"], ["un/k.go"]))
+    # (6) an injector called like a package the generator imports on its own (context / errgroup for Async providers),
+    #     declared after (and, in a second file, before) an injector that needs that import; the file imports neither
+    d = os.path.join(root, "ij")
+    os.makedirs(d, exist_ok=True)
+    body = '''package ij
+
+import "github.com/mazrean/kessoku"
+
+type DB struct{ n int }
+type Cache struct{ n int }
+type App struct{ n int }
+type Tool struct{ n int }
+
+func NewDB%(x)s() (*DB, error)        { return &DB{}, nil }
+func NewCache%(x)s() (*Cache, error)  { return &Cache{}, nil }
+func NewApp%(x)s(d *DB, c *Cache) *App { return &App{} }
+func NewTool%(x)s() *Tool             { return &Tool{} }
+
+%(decls)s
+'''
+    asyncd = 'var _ = kessoku.Inject[*App]("InitApp%(x)s", kessoku.Async(kessoku.Provide(NewDB%(x)s)), kessoku.Async(kessoku.Provide(NewCache%(x)s)), kessoku.Provide(NewApp%(x)s))'
+    named = 'var _ = kessoku.Inject[*Tool]("%(n)s", kessoku.Provide(NewTool%(x)s))'
+    open(os.path.join(d, "a.go"), "w").write(body % dict(x="A", decls=(asyncd % dict(x="A")) + "\n\n" + (named % dict(n="context", x="A"))))
+    # (a second package: an import name of one file also collides with a package-level name declared by another file of
+    # the same package, which no single-file generation can see)
+    d2 = os.path.join(root, "ij2")
+    os.makedirs(d2, exist_ok=True)
+    open(os.path.join(d2, "b.go"), "w").write(body.replace("package ij\n", "package ij2\n") % dict(
+        x="B", decls=(named % dict(n="errgroup", x="B")) + "\n\n" + (asyncd % dict(x="B"))))
+    out.append(("injector-named-like-a-generated-import", ["./ij/", "./ij2/"], ["ij/a.go", "ij2/b.go"]))
     if rng is not None:
         out += render_multi(root, rng, ncases)
     return out
